@@ -170,7 +170,11 @@ class G:
                 e = self.str_expr(env, 2)
             elif t == "vec":
                 vs = [x for x, tt in env if tt == "vec"]
-                e = {"k": "id", "n": r.choice(vs)} if vs and r.random() < 0.3 else {"k": "vec", "a": [self.int_expr(env, 1) for _ in range(r.randint(2, 3))]}
+                if r.random() < 0.15:
+                    lo = r.randint(0, 3)
+                    e = {"k": "range", "lo": {"k": "int", "v": lo}, "hi": {"k": "int", "v": lo + r.randint(1, 3)}}
+                else:
+                    e = {"k": "id", "n": r.choice(vs)} if vs and r.random() < 0.3 else {"k": "vec", "a": [self.int_expr(env, 1) for _ in range(r.randint(2, 3))]}
             else:
                 e = {"k": "map", "a": [[k, self.int_expr(env, 1)] for k in r.sample(KEYS, r.randint(1, 2))]}
             env.append((n, t))
@@ -436,6 +440,8 @@ def pe(e):
     if k == "lambda":
         caps = "[" + ", ".join(e["caps"]) + "]" if e["caps"] else ""
         return f"fun{caps}({', '.join(p['n'] for p in e['params'])}) " + blk(e['b'])
+    if k == "range":
+        return f"[{pe(e['lo'])}..{pe(e['hi'])}]"
     if k == "vec":
         return "[" + ", ".join(pe(a) for a in e["a"]) + "]"
     if k == "map":
